@@ -397,7 +397,28 @@ def structural(ctx0):
             ctx.check(w is None, "window/decrement-once", ctx.construct(q, g.node(n).ast), "the window is reduced twice for one send", witness=g.describe(w))
     with abstain(ctx0, 's/writeExtended/close-recheck', SENDER):
         ctx.need(_ok_x, 'anchors of writeExtended (section skipped)')
-        _closing_recheck(ctx, g, q, sends + [d for t, lab in empty_edges for d in succ_on(g, t, lab)], ["extBuf"])
+        # the close must be re-tried after a drain: by writeExtended itself, or - when every method of the class that re-writes buffered entries
+        # through it holds the close back during the call (closing masked) and re-tries loseConnection() afterwards on every path - by those callers
+        # (a direct call cannot drain: while anything is buffered the remote window is exhausted and writeExtended only buffers)
+        own = truth_edges(g, lambda e: self_attr(e, "closing"), True)
+        covered = []
+        for cname, cfn in methods(ctx.cls(CH, "SSHChannel")).items():
+            if cname == "writeExtended" or not any(isinstance(c, ast.Call) and call_name(c) == "self.writeExtended" for c in ast.walk(cfn)):
+                continue
+            cv = VCH(cfn)
+            cg = ctx.cfg(cv)
+            sites = call_nodes(cg, lambda c: call_name(c) == "self.writeExtended")
+            saved = {t.id for x in statements(cv) if isinstance(x, ast.Assign) for t, v in assigned_pairs(x) if isinstance(t, ast.Name) and v is not None and self_attr(v, "closing")}
+            masks = stmts(cg, lambda x: isinstance(x, ast.Assign) and any(self_attr(t, "closing") and isinstance(v, ast.Constant) and not v.value for t, v in assigned_pairs(x)))
+            retry = call_nodes(cg, lambda c: call_name(c) == "self.loseConnection")
+            keep = [e for n_ in saved for e in truth_edges(cg, lambda e, n_=n_: isinstance(e, ast.Name) and e.id == n_, False)]
+            okc = bool(sites) and bool(masks) and bool(retry) and cg.must_precede(masks, sites, exc=False) is None \
+                and edge_path(cg, sites, [cg.exit], avoid_nodes=retry, avoid_edges=keep, strict=True) is None
+            covered.append((cname, okc))
+        if not own and covered and all(okc for _, okc in covered):
+            ctx.ok("close/recheck-after-drain", q, f"the close is re-tried by the re-writing callers {[c for c, _ in covered]} (closing masked during the call, loseConnection() re-tried on every path after it)")
+        else:
+            _closing_recheck(ctx, g, q, sends + [d for t, lab in empty_edges for d in succ_on(g, t, lab)], ["extBuf"])
 
     with abstain(ctx0, 's/addWindowBytes/credit', SENDER):
         f = VCH(ctx.func(CH, "SSHChannel.addWindowBytes"))
